@@ -45,6 +45,11 @@ def _explore(out, tier, seed, facts, replay):
     for _ in range(nvec):
         L = rng.randint(1, 9)
         v = [rng.choice([-2.0, 0.0, 0.5, 1.0, 3.0, rng.randint(-30, 30) / 4.0]) for _ in range(L)]
+        if rng.random() < 0.12:
+            v = [rng.choice([7.9, 5.1, 1013.25, -0.3])] * rng.randint(3, 8)       # equal, not exactly representable values: no spread at all
+            L = len(v)
+        elif rng.random() < 0.08:
+            v = [101325.0 + x for x in v]                                          # small spread on a large offset (pressure in Pa)
         if rng.random() < 0.2:
             v[rng.randrange(L)] = NAN
         exprs.append("[" + "; ".join("%s %s" % (COQ_AGG[a], fl_list(v)) for a in AGGS) + "]")
@@ -55,6 +60,12 @@ def _explore(out, tier, seed, facts, replay):
             except Exception as e:
                 out.violation("aggregator-exception:%s" % a, "aggregator %s raised %r on %r" % (a, e, v), {"aggregator": a, "values": v})
                 exp.append(-12345.0)
+                continue
+            # independent statistic (plain Python, written from the documentation) on vectors without a missing value
+            if not any(math.isnan(x) for x in v):
+                want_a = oagg(a, v)
+                if not (abs(exp[-1] - want_a) <= 1e-9 * max(1.0, abs(want_a))):
+                    out.violation("aggregator-value:%s" % a, "aggregator %s of %r is %r; the statistic is %r" % (a, v, exp[-1], want_a), {"aggregator": a, "values": v})
         expected.append(exp)
         descr.append({"values": [repr(x) for x in v]})
     disagreements = []
@@ -208,32 +219,40 @@ def _explore(out, tier, seed, facts, replay):
         ens = [[rng.randint(0, 12) / 2.0 for _ in range(nm)] for _ in range(nl)]
         spec = {"times": [0], "leads": [float(x) for x in leads], "locs": [[1, 0.0, 0.0, 0.0]],
                 "fields": {"obs": [[[1.0] for _ in range(nl)]], "fcst": [[[1.0] for _ in range(nl)]]}}
-        inp = datagen.mem_input(spec, "ens")
+        inp = datagen.mem_input(spec, "ctrl/fcst.txt")          # two experiments whose files carry the same name in different directories
         inp.ensemble = np.array([[[e] for e in ens]], float)
+        ens2 = [[rng.randint(0, 12) / 2.0 for _ in range(nm)] for _ in range(nl)]
+        inp2 = datagen.mem_input(spec, "exp/fcst.txt")
+        inp2.ensemble = np.array([[[e] for e in ens2]], float)
         h = rng.choice([2.0, 4.0, 7.0, 30.0])
         aname = rng.choice(["sum", "mean", "max"])
-        agg_ens = []
-        for b in range(nl):
-            idx = [i for i in range(nl) if leads[b] - h < leads[i] <= leads[b]]
-            agg_ens.append([oagg(aname, [ens[i][m] for i in idx]) for m in range(nm)])
+        agg_both = []
+        for ens_k in (ens, ens2):
+            agg_k = []
+            for b in range(nl):
+                idx = [i for i in range(nl) if leads[b] - h < leads[i] <= leads[b]]
+                agg_k.append([oagg(aname, [ens_k[i][m] for i in idx]) for m in range(nm)])
+            agg_both.append(agg_k)
         t = rng.choice([1.0, 3.0, 6.0])
         q = rng.choice([0.25, 0.5, 0.9])
         for kind in ("threshold", "quantile"):
-            d = verif.data.Data([inp], dim_agg_length=h, dim_agg_axis=verif.axis.Leadtime(), dim_agg_method=aggs[aname])
-            nf += 1
-            try:
-                if kind == "threshold":
-                    got = [float(x) for x in d.get_scores(verif.field.Threshold(t), 0, verif.axis.All()).flatten()]
-                    want = [sum(1 for v in row if v <= t) / float(nm) for row in agg_ens]
-                else:
-                    got = [float(x) for x in d.get_scores(verif.field.Quantile(q), 0, verif.axis.All()).flatten()]
-                    want = [float(np.quantile(np.array(row), q, method="normal_unbiased")) for row in agg_ens]
-            except Exception as e:
-                out.violation("ensemble-preaggregation-exception", "%s from the ensemble under -T raised %r" % (kind, e), {"leads": leads, "ensemble": ens, "h": h})
-                continue
-            if not common.close_lists(got, want, 1e-5):
-                out.violation("ensemble-not-preaggregated:%s" % kind, "-T %r -Tagg %s: %s derived from the ensemble is %r; from the pre-aggregated members it is %r"
-                              % (h, aname, kind, got, want), {"leads": leads, "ensemble": ens, "h": h, "agg": aname, "threshold": t, "quantile": q})
+            d = verif.data.Data([inp, inp2], dim_agg_length=h, dim_agg_axis=verif.axis.Leadtime(), dim_agg_method=aggs[aname])
+            for k_in in ((0, 1) if rng.random() < 0.5 else (1, 0)):
+                agg_ens = agg_both[k_in]
+                nf += 1
+                try:
+                    if kind == "threshold":
+                        got = [float(x) for x in d.get_scores(verif.field.Threshold(t), k_in, verif.axis.All()).flatten()]
+                        want = [sum(1 for v in row if v <= t) / float(nm) for row in agg_ens]
+                    else:
+                        got = [float(x) for x in d.get_scores(verif.field.Quantile(q), k_in, verif.axis.All()).flatten()]
+                        want = [float(np.quantile(np.array(row), q, method="normal_unbiased")) for row in agg_ens]
+                except Exception as e:
+                    out.violation("ensemble-preaggregation-exception", "%s from the ensemble under -T raised %r" % (kind, e), {"leads": leads, "ensemble": ens, "h": h})
+                    continue
+                if not common.close_lists(got, want, 1e-5):
+                    out.violation("ensemble-not-preaggregated:%s" % kind, "-T %r -Tagg %s, inputs ctrl/fcst.txt and exp/fcst.txt: %s derived from the ensemble of input %d is %r; from ITS pre-aggregated members it is %r"
+                                  % (h, aname, kind, k_in, got, want), {"leads": leads, "ensemble_of_input_0": ens, "ensemble_of_input_1": ens2, "h": h, "agg": aname, "threshold": t, "quantile": q})
     # quantile aggregators at arbitrary levels in [0, 1]; levels outside are rejected
     from p_c05 import percentile
     for q in [0.0, 0.005, 0.025, 0.1, 0.29, 1.0 / 3, 0.5, 0.57, 0.58, 0.975, 0.999, 1.0]:
